@@ -1577,7 +1577,12 @@ impl<F: Send + 'static> Sampler<F> {
         let result = self.main_thread.join();
         match result {
             Err(payload) => std::panic::resume_unwind(payload),
-            Ok(Ok(val)) => Ok(val),
+            Ok(Ok((err, trace))) => {
+                // A chain that failed reports its error only through the results channel:
+                // surface it here, so that aborting after a failure does not look like success.
+                let chain_err = self.results.try_iter().find_map(|res| res.err());
+                Ok((err.or(chain_err), trace))
+            }
             Ok(Err(err)) => Err(err),
         }
     }
